@@ -65,9 +65,11 @@ def run(res, tier, seed):
             gaps = [(rng.randrange(8, n - 5), rng.choice([1, 3]))]
             nums = tg.line_numbers(rng, n, rng.choice([1, 4]), gaps)
             W = l1b.FMT[fmt]["width"]
-            samples = []
-            for p in range(W):
-                samples += [300 + p % 200, 310 + p % 150, 500 + (7 * p) % 300, 600 + p % 250, 620 + p % 250]
+            def samples(i):     # every line has its own counts: many distinct stored values (rounding cases of the integer encoding)
+                out = []
+                for p in range(W):
+                    out += [300 + (p + 17 * i) % 200, 310 + (p + 29 * i) % 150, 500 + (7 * p + 31 * i) % 300, 600 + (p + 11 * i) % 250, 620 + (p + 41 * i) % 250]
+                return out
             # the track crosses the equator and the prime meridian: negative and positive coordinates (truncation toward zero)
             lat0, lon0 = [(-0.91, -6.03), (10.0, 20.0), (-33.3, -170.2), (0.4, -0.7)][pi % 4]
             lines = l1b.default_lines(fmt, n, start, numbers=nums, counts=samples, qual=qual, switch=[i % 2 for i in range(n)],
@@ -77,7 +79,13 @@ def run(res, tier, seed):
             try:
                 ref = impl.open_reader(fmt, data, **kw)
                 lon, lat = ref.get_lonlat()
-                chans = ref._get_calibrated_channels_uniform_shape()
+                # the reference values are the reader's public calibrated channels (float64), laid out as the six legacy images
+                pub = np.asarray(ref.get_calibrated_channels(), dtype=np.float64)
+                if fam == "klm":
+                    chans = pub.copy()
+                else:
+                    chans = np.full(pub.shape[:2] + (6,), np.nan)
+                    chans[:, :, [0, 1, 3, 4, 5]] = pub[:, :, [0, 1, 2, 3, 4]]
                 sat_azi, sat_zen, sun_azi, sun_zen, rel_azi = ref.get_angles()
                 qf = ref.get_qual_flags()
                 times = tg.to_ms_array(ref.get_times())
